@@ -235,6 +235,41 @@ Proof.
   - vm_compute. reflexivity.
 Qed.
 
+(* END TO END, on whole landscapes of diagrams (admissible = birth <= death, births not closer than 5e-6 unless equal,
+   coordinates inside the sentinels): the transcribed constructor applied to A and B, the transcribed operator+ / operator- /
+   operator*(double) applied to the results, read back by the transcribed compute_value_at_a_given_point, give
+   lambda_k(A)(t) + lambda_k(B)(t), lambda_k(A)(t) - lambda_k(B)(t), c * lambda_k(A)(t) for every level k (also beyond the
+   number of levels of either operand) and every t between the sentinels; none of the fuelled functions runs out of fuel. *)
+Theorem C18_landscape_sum : forall A B, admissible A -> admissible B ->
+  exists la lb s, construct A 0 = Some la /\ construct B 0 = Some lb /\ land_add la lb = Some s /\
+    forall k t, - INF < t -> t < INF -> exists v, value_at s k t = Some v /\ v == lambda A k t + lambda B k t.
+Proof. exact landscape_sum. Qed.
+Print Assumptions C18_landscape_sum.
+
+Theorem C18_landscape_difference : forall A B, admissible A -> admissible B ->
+  exists la lb s, construct A 0 = Some la /\ construct B 0 = Some lb /\ land_sub la lb = Some s /\
+    forall k t, - INF < t -> t < INF -> exists v, value_at s k t = Some v /\ v == lambda A k t - lambda B k t.
+Proof. exact landscape_difference. Qed.
+Print Assumptions C18_landscape_difference.
+
+Theorem C18_landscape_scale : forall A c, admissible A ->
+  exists la, construct A 0 = Some la /\
+    forall k t, - INF < t -> t < INF -> exists v, value_at (land_scale c la) k t = Some v /\ v == c * lambda A k t.
+Proof. exact landscape_scale. Qed.
+Print Assumptions C18_landscape_scale.
+
+(* level3 = the shape of a stored level (strictly increasing from -INF to INF, at least 3 points, ordinate 0 at the two outer
+   points on either side).  Levels are closed under the transcribed merge, so that operations can be chained. *)
+Theorem C18_merge_level_closed_add : forall l1 l2, level3 l1 -> level3 l2 ->
+  exists r, merge_level radd l1 l2 = Some r /\ level3 r /\
+    (forall t, - INF <= t -> t <= INF -> interp r t == radd (interp l1 t) (interp l2 t)) /\
+    (forall t, - INF < t -> t < INF -> exists v, value_at [r] 0 t = Some v /\ v == radd (interp l1 t) (interp l2 t)).
+Proof. exact merge_level_closed_add. Qed.
+Print Assumptions C18_merge_level_closed_add.
+Example C18_admissible_nonvacuous :
+  admissible [(0, 6 # 1); (0, 2 # 1); (0, 4 # 1); (2 # 1, 4 # 1); (4 # 1, 8 # 1)].
+Proof. exact C18_landscape_equals_definition_nonvacuous. Qed.
+
 (* algorithm model: one level of multiply_lanscape_by_real_number_not_overwrite is the pointwise multiple *)
 Theorem C18_scale_level_pointwise : forall c f t, interp (scale_level c f) t == c * interp f t.
 Proof. exact scale_level_pointwise. Qed.
